@@ -198,13 +198,23 @@ class SparkSQLModel(data_algebra.db_model.DBModel):
         (and, before Spark 4, reads a doubled quote as two adjacent literals).
         """
         assert isinstance(string, str)
+        # "${" starts a variable reference that Spark substitutes before it parses the query
+        # (spark.sql.variable.substitute is on by default): "$\\{" reads back as "${"
         return (
             self.string_quote
-            + string.replace("\\", "\\\\").replace(
-                self.string_quote, "\\" + self.string_quote
-            )
+            + string.replace("\\", "\\\\")
+            .replace(self.string_quote, "\\" + self.string_quote)
+            .replace("${", "$\\{")
             + self.string_quote
         )
+
+    def quote_identifier(self, identifier: str) -> str:
+        """
+        Quote identifier. A "${" in a name would be substituted by Spark before parsing.
+        """
+        if "${" in identifier:
+            raise ValueError("did not expect ${ in identifier")
+        return data_algebra.db_model.DBModel.quote_identifier(self, identifier)
 
     # noinspection PyMethodMayBeStatic
     def execute(self, conn, q):
